@@ -142,9 +142,11 @@ PIPELINES = [
       [JS, {'k': 'lab', 'f': {'t': 'and', 'a': {'t': 'or', 'a': sfilt('x', '=', '1'), 'b': sfilt('x', '=', '2')}, 'b': sfilt('y', '=', 'a')}}],
       pool=PJ + ['J11']),
     P('json_lf_has', SEL + ' | json |= "NEEDLE"', [JS, {'k': 'line', 'op': '|='}], pool=['J1', 'J2', 'J3', 'J7']),
-    P('json_lf_not', SEL + ' | json != "NEEDLE"', [JS, {'k': 'line', 'op': '!='}], pool=['J1', 'J2', 'J3', 'J7']),
+    # `| json != "x"` / `| json !~ "x"` are parsed by logql_parser as a LABEL filter on a label called json (grammar ambiguity,
+    # not this property's subject): a label filter in between keeps the line filter a line filter
+    P('json_lf_not', SEL + ' | json | a="b" != "NEEDLE"', [JS, {'k': 'lab', 'f': sfilt('a', '=', 'b')}, {'k': 'line', 'op': '!='}], pool=['J1', 'J2', 'J3', 'J7']),
     P('json_lf_re', SEL + ' | json |~ "NEE+DLE"', [JS, {'k': 'line', 'op': '|~'}], pool=['J1', 'J2', 'J3', 'J7']),
-    P('json_lf_nre', SEL + ' | json !~ "NEE+DLE"', [JS, {'k': 'line', 'op': '!~'}], pool=['J1', 'J2', 'J3', 'J7']),
+    P('json_lf_nre', SEL + ' | json | a="b" !~ "NEE+DLE"', [JS, {'k': 'lab', 'f': sfilt('a', '=', 'b')}, {'k': 'line', 'op': '!~'}], pool=['J1', 'J2', 'J3', 'J7']),
     P('json_drop', SEL + ' | json | drop x', [JS, {'k': 'drop', 'ls': [{'l': 'x', 'v': ''}]}]),
     P('json_dropv', SEL + ' | json | drop x="1"', [JS, {'k': 'drop', 'ls': [{'l': 'x', 'v': '1'}]}]),
     P('json_drop2', SEL + ' | json | drop y, a', [JS, {'k': 'drop', 'ls': [{'l': 'y', 'v': ''}, {'l': 'a', 'v': ''}]}]),
@@ -510,6 +512,140 @@ def short_obs(o):
             vals = ['%s@%s' % (vs[i], st['ts'][i]) for i in range(len(vs))]
         ss.append('{%s}[%s]' % (','.join('%s=%s' % kv for kv in sorted(lb.items())), ' '.join(vals)))
     return 'ok ' + ' '.join(sorted(ss)) if ss else 'ok (empty)'
+
+
+def run(tier):
+    import threading
+    import time
+    seed = vlib.seed()
+    quick = tier == 'quick'
+    t0 = time.time()
+    sd = vlib.scratch('c09')
+    try:
+        gen_text, conc = gen_module(seed)
+        gen_path = os.path.join(sd, 'InProcGen.tla')
+        open(gen_path, 'w').write(gen_text)
+        cases = gen_cases(tier, seed)
+
+        box = {}
+        errs = []
+
+        def guard(name, fn, *a):
+            def w():
+                try:
+                    box[name] = fn(*a)
+                except BaseException as e:  # noqa
+                    errs.append(e)
+            t = threading.Thread(target=w)
+            t.start()
+            return t
+
+        ncpu = os.cpu_count() or 4
+        # the theorem on the specification, the export, and the build run side by side
+        th = [guard('thm', tlc_thm, gen_path, 2 if quick else 3, 2 if quick else 3, 80 if quick else 780, max(2, ncpu // 2)),
+              guard('exp', export_sharded, gen_path, cases, 3 if quick else 6, 80 if quick else 600),
+              guard('bin', vlib.go_build, 'cmd/c09', 'c09')]
+        for t in th:
+            t.join()
+        if errs:
+            raise errs[0]
+        outs, exp_wall = box['exp']
+        binp = box['bin']
+        bad = [o['id'] for o in outs if not o['thm']]
+        if bad:
+            raise vlib.Infra('the design violates the theorem on exported cases %s: the specification is wrong' % bad[:5])
+
+        cf = chain_casefile(cases, outs, conc, seed)
+        cfp = os.path.join(sd, 'chain_cases.json')
+        json.dump(cf, open(cfp, 'w'))
+        resp = os.path.join(sd, 'chain_res.json')
+        env = dict(os.environ)
+        env['TZ'] = 'UTC'
+        crossp = os.path.join(sd, 'cross_res.json')
+        curp = os.path.join(sd, 'cross_current.txt')
+
+        def run_chain():
+            r = vlib.run_cmd([binp, 'chain', '-cases', cfp, '-out', resp], timeout=300 if quick else 800, env=env)
+            if r.returncode != 0 or not os.path.exists(resp):
+                raise vlib.Infra('c09 chain failed: ' + (r.stderr or r.stdout)[-2000:])
+            return json.load(open(resp))
+
+        def run_cross():
+            r = vlib.run_cmd([binp, 'cross', '-out', crossp, '-seed', str(seed), '-tier', tier, '-current', curp],
+                             timeout=300 if quick else 800, env=env)
+            if r.returncode != 0 or not os.path.exists(crossp):
+                cur = open(curp).read() if os.path.exists(curp) else ''
+                if 'panic:' in (r.stderr or '') and cur:
+                    return {'died': True, 'current': json.loads(cur), 'stderr': r.stderr[-3000:]}
+                raise vlib.Infra('c09 cross failed: ' + (r.stderr or r.stdout)[-2000:])
+            return json.load(open(crossp))
+
+        th = [guard('chain', run_chain), guard('cross', run_cross)]
+        for t in th:
+            t.join()
+        if errs:
+            raise errs[0]
+        chain, cross = box['chain'], box['cross']
+        if chain.get('infra_errors'):
+            raise vlib.Infra('c09 chain: ' + '; '.join(chain['infra_errors'][:5]))
+        if chain['cases'] != len(cases) or len(chain['pipelines']) != len(PIPELINES):
+            raise vlib.Infra('c09 chain ran %d of %d cases over %d of %d pipelines' % (chain['cases'], len(cases), len(chain['pipelines']), len(PIPELINES)))
+
+        violations = chain_violations(cf, chain) + cross_violations(cross)
+        thm = box['thm']
+        sample = cf['cases'][len(cf['cases']) // 2]
+        coverage = {
+            'states': thm['states'], 'transitions': thm['generated'],
+            'traces_validated_against_impl': chain['cases'] + cross.get('queries', 0),
+            'samples': [{'query': sample['q'], 'limit': sample['lim'], 'partition': sample['cut'], 'eof': sample['eof'],
+                         'upstream': [{'labels': e['lb'], 'ts': e['ts'], 'line': conc.get(e['ln'], e['ln'])} for e in sample['es']],
+                         'expected': sample['exp'], 'predicted_as_coded': sample['pred']}],
+            'theorem': {'bounds': {'max_entries': 2 if quick else 3, 'max_messages': 2 if quick else 3, 'pipelines': len(PIPELINES)},
+                        'states': thm['states'], 'wall_s': thm['wall_s'],
+                        'invariants': ['Thm_BatchingIndependent', 'Thm_LimitMeaning', 'Thm_SeriesIdentity']},
+            'export': {'cases': len(cases), 'wall_s': round(exp_wall, 1)},
+            'chain': {'cases': chain['cases'], 'chain_executions': chain['replays'], 'pipelines': len(chain['pipelines']),
+                      'agree_with_definition': chain['ok'], 'candidates_from_spec': chain['candidates'],
+                      'candidates_confirmed_on_code': chain['confirmed'], 'code_as_transcribed': chain['pred_agree'],
+                      'code_differs_from_transcription': chain['pred_differ'], 'worker_crashes': chain['crashes']},
+            'cross': {k: v for k, v in cross.items() if k in ('queries', 'pairs', 'pairs_equal', 'pairs_differ', 'datasets', 'died', 'unsupported')},
+            'wall_s': round(time.time() - t0, 1),
+        }
+        if chain['cases'] - chain['candidates'] < 50:
+            raise vlib.Infra('vacuous: only %d cases on which the code is expected to agree' % (chain['cases'] - chain['candidates']))
+        return {'level': 'model_checking', 'coverage': coverage, 'violations': violations,
+                'assumptions': [
+                    'the in-process chain is observed at the output channel of internal_planner.Plan (below ZeroEaterPlanner / FixPeriodPlanner) with '
+                    'the window FixPeriodPlanner would pass: aligned to the range, upstream entries inside it, ordered by timestamp',
+                    'where LogQL leaves room the definition follows what both engines do: tumbling windows, unwrap of a non-number is 0, an extracted '
+                    'label overrides a stream label, label_format keeps its source, a label with the empty value is absent',
+                    'regular expressions in the cases are anchored (anchoring of =~ is C07/C08 territory)',
+                    'ResponseOptimizerPlanner flush at 3000 held entries and the 2000-series cap of the aggregators are outside the bounds',
+                    'cross-engine runs use chsql as the SQL engine'],
+                }
+    finally:
+        shutil.rmtree(sd, ignore_errors=True)
+
+
+def cross_violations(cross):
+    out = []
+    if cross.get('died'):
+        cur = cross.get('current') or {}
+        sig = 'C09/cross/reader-process-died/' + str(cur.get('pair', '?'))
+        rp = vlib.save_replay('C09', re.sub(r'[^A-Za-z0-9_+-]+', '_', sig), cross)
+        out.append({'property': 'C09', 'signature': sig, 'msg': 'the reader process died (unrecovered panic) while answering %s' % cur, 'replay': rp})
+        return out
+    groups = {}
+    for d in cross.get('disagreements') or []:
+        groups.setdefault(d['signature'], []).append(d)
+    for sig, lst in sorted(groups.items()):
+        d = lst[0]
+        rp = vlib.save_replay('C09', re.sub(r'[^A-Za-z0-9_+-]+', '_', sig)[:150], {'signature': sig, 'first': d, 'count': len(lst), 'all': lst[:20]})
+        out.append({'property': 'C09', 'signature': sig,
+                    'msg': 'same stored data (%s), limit %s, %s: SQL formulation %s -> %s ; in-process formulation %s -> %s [%d requests]'
+                           % (d['dataset'], d['limit'], d['direction'], d['sql_query'], d['sql_short'], d['inproc_query'], d['inproc_short'], len(lst)),
+                    'replay': rp})
+    return out
 
 if __name__ == '__main__':
     import sys
